@@ -81,7 +81,8 @@ func runC13(s *core.Sim, tier string) RunInfo {
 				r.Frames = []frame{notFoundFrame()}
 			case "unknown-status":
 				f := hdrFrame(target)
-				f.status = p2p_pb.StatusCode(5 + rng.Draw("code", 100))
+				// any int32 a peer can put on the wire that is not one of the three known codes
+				f.status = p2p_pb.StatusCode(core.Pick(rng, "code", []int{3, 4, 5, 100, 1000, 1 << 30, 1<<31 - 1, -1, -2, -1000, -1 << 31}))
 				r.Frames = []frame{f}
 			case "zero-responses":
 			case "two-responses":
